@@ -221,6 +221,17 @@ func runC19(c *Ctx) {
 
 	// ---- O-5: window predicate orientation ----
 	c.checkWindowPredicate()
+	// ---- O-5b: one record per journal line ----
+	{
+		ruleF := "O-5b one record per journal line"
+		sites, stale := staleDecodeDests(p.FnsIn("common/ipsetsink/sinkcluster"))
+		for _, ci := range stale {
+			c.viol(ruleF, p.FnName(ci.Parent())+" decodes each journal line into a fresh record", p.instrPos(ci), "a journal entry is decoded inside the loop into a variable that lives across iterations: fields absent from a line keep the previous entry's values (window bounds, sketch bytes)")
+		}
+		if len(stale) == 0 {
+			c.okTrivial(ruleF, "journal decodes inside loops use a per-iteration record", "-", fmt.Sprintf("%d decode site(s) inside loops", len(sites)))
+		}
+	}
 }
 
 func (c *Ctx) checkBinCountShape(bin *ssa.Function) {
@@ -461,11 +472,9 @@ func (c *Ctx) checkWindowPredicate() {
 		return ""
 	}
 	n := 0
-	for _, ci := range callsIn(fn) {
+	for _, d := range deepCalls(fn, 2, "(time.Time).Before", "(time.Time).After", "(time.Time).Equal") {
+		ci := d.In.(ssa.CallInstruction)
 		name := calleeName(ci)
-		if name != "(time.Time).Before" && name != "(time.Time).After" && name != "(time.Time).Equal" {
-			continue
-		}
 		args := ci.Common().Args
 		recv, arg := fieldName(args[0]), fieldName(args[1])
 		n++
